@@ -119,7 +119,46 @@ def make_states(case, chain_override=None):
         st[k] = jnp.asarray(np.stack(vals))
     st["chain"] = (jnp.zeros(C, dtype=jnp.int32) if replicated(case)
                    else jnp.arange(C, dtype=jnp.int32))
+    st["z"] = jnp.full((C,), 7.0, jnp.float32)
     return st
+
+
+def make_iface_states(case, chain_override=None):
+    """(interface, stacked per-chain states).  Dict model by default; with
+    case['liesel'] a Liesel graph model with a derived Calc node ('derived')."""
+    import jax.numpy as jnp
+    import liesel.goose as gs
+
+    if not case.get("liesel"):
+        return gs.DictInterface(lambda s: jnp.asarray(0.0)), make_states(case, chain_override)
+    import liesel.model as lsl
+    from liesel.goose.pytree import stack_leaves
+
+    keys = sorted(case["shapes"])
+    vs = {k: lsl.Var(jnp.asarray(init_value(0, ki, case["shapes"][k], case["dtypes"][k])), name=k)
+          for ki, k in enumerate(keys)}
+    chain = lsl.Var(jnp.asarray(0, jnp.int32), name="chain")
+    z = lsl.Var(jnp.asarray(7.0, jnp.float32), name="z")
+
+    def total(*xs):
+        return sum(jnp.sum(x.astype(jnp.float32)) for x in xs)
+
+    derived = lsl.Calc(total, *[vs[k] for k in keys], _name="derived")
+    model = lsl.GraphBuilder().add(derived, chain, z).build_model()
+    iface = gs.LieselInterface(model)
+    base = model.state
+    sts = []
+    for c in range(case["chains"]):
+        cc = 0 if replicated(case) else c
+        pos = {}
+        for ki, k in enumerate(keys):
+            v = init_value(cc, ki, case["shapes"][k], case["dtypes"][k])
+            if chain_override and c in chain_override:
+                v = v + np.asarray(chain_override[c], dtype=v.dtype)
+            pos[k] = jnp.asarray(v)
+        pos["chain"] = jnp.asarray(cc, jnp.int32)
+        sts.append(iface.update_state(pos, base))
+    return iface, stack_leaves(sts)
 
 
 def make_kernels(case, write=True):
@@ -151,9 +190,9 @@ def build_engine(case, epochs, *, states=None, kernels=None, position_keys=None,
     from liesel.goose.engine import Engine
     from liesel.goose.kernel_sequence import KernelSequence
 
-    iface = gs.DictInterface(lambda s: jnp.asarray(0.0))
+    iface, states0 = make_iface_states(case)
     if states is None:
-        states = make_states(case)
+        states = states0
     if kernels is None:
         kernels = make_kernels(case)
     C = case["chains"]
@@ -166,7 +205,7 @@ def build_engine(case, epochs, *, states=None, kernels=None, position_keys=None,
         if case.get("multi_init", False):
             b.set_initial_values(states, multiple_chains=True)
         else:
-            one = {k: v[0] for k, v in states.items()}
+            one = jax.tree_util.tree_map(lambda v: v[0], states)
             b.set_initial_values(one)
         for k in kernels:
             b.add_kernel(k)
